@@ -6,6 +6,8 @@ by reference).  The observation hooks never change what the library does:
   * CallLog     - which thread issued which generator call on which worker
                   (every WorkerPool.iterate() drives its calls from its own
                   event-loop thread, so the thread identifies the run);
+  * InitWatch   - init_generator requests that reached a worker whose installed
+                  generator was not exhausted yet (two users at the same time);
   * ThreadWatch - the threads orchestrate creates (the unsupervised merge thread
                   of sharded_pipelines_as_iterator) and the exceptions that end
                   them.
@@ -152,6 +154,40 @@ class CallLog:
     return len(seq) > len({id(t) for t in seq})
 
 
+class InitWatch:
+  """Server side: init_generator requests that found an unexhausted generator installed.
+
+  In a fault-free run nothing is retried, so this only happens when two users
+  have a generator open on the same worker at the same time.  Enter it BEFORE the
+  servers are built (the handler is bound at construction).
+  """
+
+  def __init__(self):
+    self.preempted = []      # addresses
+    self._orig = None
+
+  def __enter__(self):
+    from ml_metrics._src.chainables import courier_server
+    self._orig = orig = courier_server.PrefetchedCourierServer._init_iterator  # pylint: disable=protected-access
+    watch = self
+
+    def _init_iterator(self, maybe_lazy):
+      g = self._generator  # pylint: disable=protected-access
+      if g is not None and not g.exhausted:
+        watch.preempted.append(self.address)
+      return orig(self, maybe_lazy)
+
+    courier_server.PrefetchedCourierServer._init_iterator = _init_iterator  # pylint: disable=protected-access
+    return self
+
+  def __exit__(self, *a):
+    from ml_metrics._src.chainables import courier_server
+    courier_server.PrefetchedCourierServer._init_iterator = self._orig  # pylint: disable=protected-access
+
+  def clear(self):
+    self.preempted = []
+
+
 class ThreadWatch:
   """Records the threads orchestrate starts and the exceptions that end threads."""
 
@@ -206,7 +242,7 @@ class ThreadWatch:
 # ---------------------------------------------------------------------------
 
 
-def sharded_run(pool, define, spec, K, watch, agg_wait_s=40.0):
+def sharded_run(pool, define, spec, K, watch, agg_wait_s=40.0, **run_kwargs):
   """Runs sharded_pipelines_as_iterator in the calling thread.
 
   Returns a dict: outs, error (exception of the iterator or None), aggs (everything
@@ -220,7 +256,7 @@ def sharded_run(pool, define, spec, K, watch, agg_wait_s=40.0):
          'merge_thread_alive': None, 'merge_thread_error': None, 'gave_up_waiting': False}
   try:
     for b in orchestrate.sharded_pipelines_as_iterator(
-        pool, define, spec, num_shards=K, result_queue=rq):
+        pool, define, spec, num_shards=K, result_queue=rq, **run_kwargs):
       out['outs'].append(b)
   except Exception as e:  # pylint: disable=broad-exception-caught
     out['error'] = e
